@@ -19,10 +19,15 @@ ASSUMPTIONS = ["numpy.linalg.solve on <=6x6 systems", "action values at absorbin
                "(the statement fixes only their state value, 0)"]
 
 
+# discount rates close to (but below) 1 and other unusual values: the discounted branch must be taken
+NEAR_ONE = [0.999, 0.99999, 1 - 1e-7, 0.05, 0.7071]
+
+
 @st.composite
 def cases(draw, tier="quick"):
     big = tier == "thorough"
     spec = draw(st.one_of(mdp_specs("discounted", max_states=6 if big else 5),
+                          mdp_specs("discounted", max_states=6 if big else 5, gammas=NEAR_ONE),
                           mdp_specs("negative", max_states=6 if big else 5)))
     pol = draw(policy_specs(spec))
     return {"mdp": spec, "policy": pol}
@@ -43,7 +48,8 @@ def prop_eval(case, ctx):
     ev = ref.evaluate(pi)
     states = [view.sidx[s] for s in mdp.state_list]
     scale = 1 + max([abs(v) for v in ev["V"] if math.isfinite(v)] + [0.0])
-    tol = 1e-8 * scale
+    # the discounted solve is conditioned like 1/(1-gamma)
+    tol = max(1e-8, 1e-13 / (1 - gamma) if gamma < 1 else 0) * scale
     for s in states:
         v = float(res.state_value[view.S[s]])
         rv = float(ev["V"][s])
@@ -80,7 +86,7 @@ def prop_eval(case, ctx):
         if math.isinf(ro):
             ctx.check(o == ro, "C02.occupancy_inf_at_recurrent", lambda: f"state {s}: msdm {o} reference inf")
         else:
-            ctx.check(math.isfinite(o) and abs(o - ro) <= 1e-8 * (1 + abs(ro)), "C02.occupancy",
+            ctx.check(math.isfinite(o) and abs(o - ro) <= max(1e-8, 1e-13 / (1 - gamma) if gamma < 1 else 0) * (1 + abs(ro)), "C02.occupancy",
                       lambda: f"state {s}: msdm {o} reference {ro}")
     iv = float(res.initial_value)
     riv = ev["initial_value"]
